@@ -195,3 +195,8 @@ impl ContainedColumns {
         self.0 & (1 << column) != 0
     }
 }
+
+// Verification hook (compiled only by `cargo kani`, which sets `--cfg kani`).
+#[cfg(kani)]
+#[path = "/verif/harness/mania_pattern.rs"]
+pub(crate) mod verif_harness;
